@@ -129,7 +129,7 @@ def child_main(args, seed):
     return 0
 
 
-def run_jobs(args, seed, jobs, outdir, known_path):
+def run_jobs(args, seed, jobs, outdir, known_path, legs_by_name):
     maxpar = int(os.environ.get("VERIF_JOBS", "0")) or min(16, os.cpu_count() or 1)
     limit = float(os.environ.get("VERIF_JOB_TIMEOUT",
                                  "900" if args.tier == "quick" else "5400"))
@@ -147,7 +147,8 @@ def run_jobs(args, seed, jobs, outdir, known_path):
             out = os.path.join(outdir, "%s.%d.json" % (leg, i))
             if os.path.exists(out):
                 os.unlink(out)
-            cmd = [sys.executable, "-m", "vlib.cli", args.prop, "--tier",
+            opt = ["-O"] if legs_by_name[leg].optimize else []
+            cmd = [sys.executable] + opt + ["-m", "vlib.cli", args.prop, "--tier",
                    args.tier, "--child", "%s:%d:%d" % (leg, i, n), "--out",
                    out, "--known", known_path]
             log = open(out + ".log", "w")
@@ -254,7 +255,8 @@ def parent_main(args, seed):
         for i in range(n):
             jobs.append((lg.name, i, n))
     # longest legs first so the pool drains evenly
-    results, errors = run_jobs(args, seed, jobs, outdir, known_path)
+    results, errors = run_jobs(args, seed, jobs, outdir, known_path,
+                               legs_by_name)
     if not errors and not os.environ.get("VERIF_KEEP_OUT"):
         import shutil
         shutil.rmtree(outdir, ignore_errors=True)
@@ -309,11 +311,14 @@ def replay_main(args, seed):
     legs_by_name = dict((lg.name, lg) for lg in mod.LEGS)
     with open(args.replay) as f:
         rep = json.load(f)
+    leg = legs_by_name[rep["leg"]]
+    if leg.optimize and not sys.flags.optimize:
+        os.execv(sys.executable, [sys.executable, "-O", "-m", "vlib.cli"]
+                 + sys.argv[1:])
     accts = {}
     active, _, lines = regress_phase(args.prop, mod, legs_by_name, accts)
     for ln in lines:
         print(ln)
-    leg = legs_by_name[rep["leg"]]
     f = run_case(leg, rep["case"], Account(leg.name), active)
     if f is None:
         print("replay held: property=%s leg=%s" % (args.prop, rep["leg"]))
@@ -343,6 +348,7 @@ def main(argv=None):
         seed = int(os.environ.get("VERIF_SEED", "1"))
     except ValueError:
         seed = 1
+    cov = _start_cov(args)
     try:
         if args.child:
             return child_main(args, seed)
@@ -355,6 +361,27 @@ def main(argv=None):
     except Exception:
         sys.stderr.write("HARNESS: %s\n" % traceback.format_exc())
         return 2
+    finally:
+        if cov is not None:
+            cov.stop()
+            cov.save()
+
+
+def _start_cov(args):
+    """VERIF_COV=<dir>: record which lines of the nfc package this process
+    executes (tools/covreport.py shows what the generators never reach);
+    measurement only, never part of a registered command"""
+    d = os.environ.get("VERIF_COV")
+    if not d:
+        return None
+    os.environ.setdefault("COVERAGE_CORE", "sysmon")
+    import coverage
+    os.makedirs(d, exist_ok=True)
+    cov = coverage.Coverage(data_file=os.path.join(d, "cov." + args.prop),
+                            data_suffix=True, branch=False,
+                            include=[os.path.join(engine.REPO_SRC, "nfc", "*")])
+    cov.start()
+    return cov
 
 
 if __name__ == "__main__":
